@@ -37,7 +37,7 @@ RULE = (
     "non-trivial = cloud with points both inside and outside; distinct = (workload, columns, scale class, prism kind / visibility mix, inside?, outside?)"
 )
 ASSUMPTIONS = ["boxes are upright (yaw only)", "prisms are simple polygons with identical upper and lower planes"]
-DECIDING = ["crop_pointcloud.judged", "DynamicObject.crop_pointcloud.judged", "C12.partition_checked", "C12.scale_growth_checked", "SensingFrameResult.judged", "C12.status.success", "C12.status.fail", "C12.status.warning", "C12.non_detection_judged", "C12.manager_frames", "C12.clouds_with_inside_and_outside"]
+DECIDING = ["crop_pointcloud.judged", "DynamicObject.crop_pointcloud.judged", "C12.partition_checked", "C12.scale_growth_checked", "SensingFrameResult.judged", "C12.status.success", "C12.status.fail", "C12.status.warning", "C12.non_detection_judged", "C12.manager_frames", "C12.clouds_with_inside_and_outside", "SensingEvaluationManager.crop_pointcloud.judged"]
 JOBS = {"quick": 4, "thorough": 14}
 EPS = 1e-7
 
@@ -181,6 +181,45 @@ def install(taps: Taps, ctx: Ctx) -> None:
         return evaluate_frame
 
     taps.method(sfr_mod.SensingFrameResult, "evaluate_frame", frame_factory, tapname="SensingFrameResult")
+
+    def mgr_crop_factory(orig):
+        def crop_pointcloud(self, ground_truth_objects, pointcloud, non_detection_areas, transforms=None):
+            out = orig(self, ground_truth_objects, pointcloud, non_detection_areas, transforms)
+
+            def j():
+                tap = "SensingEvaluationManager.crop_pointcloud"
+                ctx.count(f"{tap}.judged")
+                if row_ids(pointcloud) is None or len(pointcloud) > 4000:
+                    ctx.count(f"{tap}.no_row_ids")
+                    return
+                s0 = self.evaluator_config.metrics_params["box_scale_0m"]
+                s100 = self.evaluator_config.metrics_params["box_scale_100m"]
+                ctx.check(len(out) == len(non_detection_areas), "C12/one_cloud_per_non_detection_area", dict(n_out=len(out), n_areas=len(non_detection_areas)), tap)
+                for area, got in zip(non_detection_areas, out):
+                    insp, decp = prism_verdicts(pointcloud, area)
+                    keep, und = insp.copy(), ~decp
+                    for o in ground_truth_objects:
+                        if O.frame_of(o) != "base_link":
+                            return  # ego-relative geometry only
+                        scale = s0 + 0.01 * (s100 - s0) * float(np.linalg.norm(O.box_of(o)[:3]))
+                        ins, dec = box_verdicts_fast(pointcloud, O.box_of(o), scale)
+                        keep &= ~ins
+                        und |= ~dec
+                    if und.any():
+                        ctx.count(f"{tap}.skipped_boundary")
+                        continue
+                    exp = set(pointcloud[keep][:, -1].tolist())
+                    ctx.count(f"{tap}.checked")
+                    ctx.check(set(got[:, -1].tolist()) == exp and len(got) == len(exp), "C12/non_detection_cloud_not_points_in_area_outside_every_box", dict(n_objects=len(ground_truth_objects), reported=len(got), expected=len(exp)), tap)
+
+            guarded(ctx, "SensingEvaluationManager.crop_pointcloud", j)
+            return out
+
+        return crop_pointcloud
+
+    from perception_eval.manager import sensing_evaluation_manager as sem_mod
+
+    taps.method(sem_mod.SensingEvaluationManager, "crop_pointcloud", mgr_crop_factory, tapname="SensingEvaluationManager.crop_pointcloud")
 
 
 def box_verdicts_fast(pc: np.ndarray, box: Tuple, scale: float) -> Tuple[np.ndarray, np.ndarray]:
@@ -429,7 +468,7 @@ def run(ctx: Ctx) -> None:
         from perception_eval.config import SensingEvaluationConfig
         from perception_eval.manager import SensingEvaluationManager
 
-        for idx in ctx.indices("manager", 10 if ctx.quick else 2500):
+        for idx in ctx.indices("manager", 16 if ctx.quick else 2500):
             r = ctx.rng("manager", idx)
             n_s = r.randint(1, 3)
             samples, pcs, boxes_per = [], [], []
@@ -439,6 +478,9 @@ def run(ctx: Ctx) -> None:
                 anns, clouds, boxes = [], [], []
                 for j in range(r.randint(0, 5)):
                     box = (r.uniform(-50, 50), r.uniform(-50, 50), r.uniform(-0.5, 0.5), O.rand_yaw(r), r.uniform(0.5, 2.5), r.uniform(0.5, 6), r.uniform(1, 3))
+                    if r.random() < 0.5:
+                        # inside the non-detection area used below: its returns must be cut out of that area's cloud
+                        box = (r.uniform(1.5, 10.5), r.uniform(-2.0, 2.0), r.uniform(0.0, 0.5), O.rand_yaw(r), r.uniform(0.5, 1.5), r.uniform(0.5, 2.5), r.uniform(1, 2))
                     pos, yaw = D.global_pose(ego[0], ego[1], box)
                     anns.append(D.Ann(inst=f"i{j}", category=r.choice(["car", "pedestrian", "bicycle"]), pos=pos, yaw=yaw, size=tuple(box[4:7]), npts=5, vis=r.choice(["full", "most", "partial", "none"])))
                     scale = s0 + 0.01 * (s100 - s0) * float(np.linalg.norm(box[:3]))
@@ -457,7 +499,10 @@ def run(ctx: Ctx) -> None:
             ctx.begin_case("manager", idx, n_samples=n_s)
             with ctx.case_guard("manager"):
                 with D.DatasetDir(spec) as ds:
-                    cfg = SensingEvaluationConfig(dataset_paths=[ds.root], frame_id="base_link", result_root_directory=ds.result_root, evaluation_config_dict={"evaluation_task": "sensing", "target_uuids": None, "box_scale_0m": s0, "box_scale_100m": s100, "min_points_threshold": r.choice([1, 3])}, load_raw_data=True)
+                    # an instance filter restricts which objects are *evaluated*; every annotated box is still cut out of
+                    # the non-detection clouds
+                    uu = None if r.random() < 0.5 else [f"i{j}" for j in range(5) if r.random() < 0.5] + ["nobody"]
+                    cfg = SensingEvaluationConfig(dataset_paths=[ds.root], frame_id="base_link", result_root_directory=ds.result_root, evaluation_config_dict={"evaluation_task": "sensing", "target_uuids": uu, "box_scale_0m": s0, "box_scale_100m": s100, "min_points_threshold": r.choice([1, 3])}, load_raw_data=True)
                     mgr = SensingEvaluationManager(cfg)
                     area = [(12.0, 3.0, -1.0), (12.0, -3.0, -1.0), (0.0, -3.0, -1.0), (0.0, 3.0, -1.0), (12.0, 3.0, 5.0), (12.0, -3.0, 5.0), (0.0, -3.0, 5.0), (0.0, 3.0, 5.0)]
                     for k, fgt in enumerate(mgr.ground_truth_frames):
@@ -481,7 +526,7 @@ def run(ctx: Ctx) -> None:
                                 got |= set(a[:, -1].tolist())
                             ctx.check(got == exp, "C12/non_detection_failures_not_points_in_area_outside_every_box", dict(frame=k, reported=len(got), expected=len(exp)), "SensingEvaluationManager")
                         annotated = {a.inst: a.vis for a in samples[k].anns}
-                        warn_exp = sum(1 for o in fgt.objects if annotated.get(o.uuid) == "none")
+                        warn_exp = sum(1 for o in fgt.objects if annotated.get(o.uuid) == "none" and (uu is None or o.uuid in uu))
                         ctx.check(len(res.detection_warning_results) == warn_exp, "C12/warning_status_not_visibility_none", dict(frame=k, warnings=len(res.detection_warning_results), annotated_none=warn_exp, vis=[repr(o.visibility) for o in fgt.objects]), "SensingEvaluationManager")
                     ctx.case(("manager", n_s, s0), nontrivial=True)
         ctx.notes["taps"] = taps.installed
